@@ -127,6 +127,71 @@ func rewriteClock(fset *token.FileSet, filename string, src []byte) ([]byte, boo
 		changed = true
 		return true
 	})
+	// sync.Map-style method calls (x.m.Load / Store / LoadOrStore / ... on a field) are
+	// scheduling points under the executor; natively a verifrt.Yield() is inserted
+	// before the statement that contains one (purely syntactic: an extra yield before
+	// some unrelated Load() method is harmless)
+	syncMapMethods := map[string]bool{"Load": true, "Store": true, "LoadOrStore": true, "LoadAndDelete": true, "Delete": true, "Range": true, "Swap": true, "CompareAndSwap": true, "CompareAndDelete": true}
+	var hasMapCall func(n ast.Node) bool
+	hasMapCall = func(n ast.Node) bool {
+		found := false
+		ast.Inspect(n, func(m ast.Node) bool {
+			if found {
+				return false
+			}
+			switch x := m.(type) {
+			case *ast.BlockStmt:
+				if m != n {
+					return false // nested blocks get their own yields
+				}
+			case *ast.FuncLit:
+				return false
+			case *ast.CallExpr:
+				if sel, ok := x.Fun.(*ast.SelectorExpr); ok && syncMapMethods[sel.Sel.Name] {
+					if _, isField := sel.X.(*ast.SelectorExpr); isField {
+						found = true
+						return false
+					}
+				}
+			}
+			return true
+		})
+		return found
+	}
+	yieldStmt := func() ast.Stmt {
+		return &ast.ExprStmt{X: &ast.CallExpr{Fun: &ast.SelectorExpr{X: ast.NewIdent("verifrt"), Sel: ast.NewIdent("Yield")}}}
+	}
+	withYields := func(list []ast.Stmt) []ast.Stmt {
+		var out []ast.Stmt
+		for _, st := range list {
+			need := false
+			switch x := st.(type) {
+			case *ast.IfStmt:
+				// only the init statement and the condition belong to this statement; the bodies are nested blocks
+				need = hasMapCallExpr(x.Cond, syncMapMethods) || (x.Init != nil && hasMapCall(x.Init))
+			case *ast.BlockStmt, *ast.ForStmt, *ast.RangeStmt, *ast.SwitchStmt, *ast.TypeSwitchStmt, *ast.SelectStmt, *ast.LabeledStmt:
+			default:
+				need = hasMapCall(st)
+			}
+			if need {
+				out = append(out, yieldStmt())
+				changed = true
+			}
+			out = append(out, st)
+		}
+		return out
+	}
+	ast.Inspect(f, func(n ast.Node) bool {
+		switch x := n.(type) {
+		case *ast.BlockStmt:
+			x.List = withYields(x.List)
+		case *ast.CaseClause:
+			x.Body = withYields(x.Body)
+		case *ast.CommClause:
+			x.Body = withYields(x.Body)
+		}
+		return true
+	})
 	ast.Inspect(f, func(n ast.Node) bool {
 		sel, ok := n.(*ast.SelectorExpr)
 		if !ok {
@@ -209,6 +274,12 @@ func (n *NativeRunner) prepare() error {
 			return nil
 		}
 		rel, _ := filepath.Rel(n.Harness, p)
+		if !strings.HasSuffix(base, "_native.go") && filepath.Dir(rel) != filepath.Join("internal", "verifrt") {
+			// a harness file that was left out of the symbolic load (it no longer compiles) is left out here too
+			if _, ok := n.P.Overlay[filepath.Join(repo, filepath.Dir(rel), "zz_verif_"+base)]; !ok {
+				return nil
+			}
+		}
 		data, err := os.ReadFile(p)
 		if err != nil {
 			return err
@@ -462,4 +533,30 @@ func (n *NativeRunner) RunSched(pkgPath string, cases []NativeCase, race bool, t
 		}
 	}
 	return res, nil
+}
+
+// hasMapCallExpr reports whether an expression contains a sync.Map-style method call on a field.
+func hasMapCallExpr(e ast.Expr, methods map[string]bool) bool {
+	if e == nil {
+		return false
+	}
+	found := false
+	ast.Inspect(e, func(m ast.Node) bool {
+		if found {
+			return false
+		}
+		switch x := m.(type) {
+		case *ast.FuncLit:
+			return false
+		case *ast.CallExpr:
+			if sel, ok := x.Fun.(*ast.SelectorExpr); ok && methods[sel.Sel.Name] {
+				if _, isField := sel.X.(*ast.SelectorExpr); isField {
+					found = true
+					return false
+				}
+			}
+		}
+		return true
+	})
+	return found
 }
